@@ -15,6 +15,7 @@ import (
 	"path/filepath"
 	"runtime/debug"
 	"sort"
+	"strings"
 	"sync"
 	"testing"
 	"time"
@@ -302,4 +303,15 @@ func Catch(f func()) (err error) {
 	}()
 	f()
 	return nil
+}
+
+// Known reports whether a finding key is listed in KNOWN_FINDINGS.txt for the running property
+// (the driver passes the listed keys in VERIF_KNOWN).
+func Known(key string) bool {
+	for _, k := range strings.Split(os.Getenv("VERIF_KNOWN"), ",") {
+		if k == key {
+			return true
+		}
+	}
+	return false
 }
